@@ -101,17 +101,22 @@ def enc_plan_from_call(formatter, opts):
     fs = {formatting.DiffFormatter: "diff", formatting.XMLFormatter: "xml", formatting.XmlDiffFormatter: "old"}.get(type(formatter), "?")
     norm = getattr(formatter, "normalize", "missing")
     ua = []
-    for u in opts["uniqueattrs"]:
+    uas = opts.get("uniqueattrs", "<missing>")
+    if uas is None or isinstance(uas, str):
+        # not a list: the plan cannot agree with the model (which always passes a list)
+        ua.append("not-a-list:" + repr(uas))
+        uas = []
+    for u in uas:
         if isinstance(u, str):
             ua.append("p," + xt.enc_str(u))
         else:
             ua.append("t," + xt.enc_str(u[0]) + "," + xt.enc_str(u[1]))
     ign = [xt.enc_str(x) for x in opts.get("ignored_attrs", ["<missing>"])]
-    F = opts["F"]
+    F = opts.get("F")
     pretty = getattr(formatter, "pretty_print", None)
     return (
-        f"ok {fs};{norm};{{pp}};{'n' if F is None else xt.fbits(F)};{['fast','accurate','faster'].index(opts['ratio_mode'])};"
-        f"{'1' if opts['fast_match'] else '0'};{'1' if opts['best_match'] else '0'};{'|'.join(ua)};{'|'.join(ign)};"
+        f"ok {fs};{norm};{{pp}};{'n' if F is None else xt.fbits(F)};{['fast','accurate','faster'].index(opts.get('ratio_mode', 'fast'))};"
+        f"{'1' if opts.get('fast_match') else '0'};{'1' if opts.get('best_match') else '0'};{'|'.join(ua)};{'|'.join(ign)};"
         f"strip={'1' if (getattr(formatter, 'normalize', 1) & 1) else '0'}"
     ), pretty
 
